@@ -159,10 +159,14 @@ impl ZoneSurfFilter {
         let mut map: HashMap<(String, String), Vec<(u32, Vec<Vec<u8>>)>> = HashMap::new();
 
         for zp in zone_plans {
-            let mut dynamic_keys: Vec<String> = Vec::new();
-            if let Some(event) = zp.events.get(0) {
-                dynamic_keys.extend(event.payload.keys().cloned());
-            }
+            // Collect the keys of every event of the zone, not only of the first one: an
+            // optional field may be absent from the first event and present in later ones,
+            // and a zone without an entry in the filter is ruled out by every range probe.
+            let dynamic_keys: std::collections::BTreeSet<String> = zp
+                .events
+                .iter()
+                .flat_map(|event| event.payload.keys().cloned())
+                .collect();
             for key in dynamic_keys {
                 if !allowed_fields.contains(&key) {
                     continue;
